@@ -482,6 +482,11 @@ class _Desugar(ast.NodeTransformer):
     def visit_Expr(self, st):
         self.generic_visit(st)
         c = st.value
+        if isinstance(c, ast.Call) and isinstance(c.func, ast.Name) and c.func.id == "setattr" and self.fv._global("setattr") and len(c.args) == 3 \
+                and not c.keywords and isinstance(c.args[1], ast.Constant) and isinstance(c.args[1].value, str) and c.args[1].value.isidentifier():
+            # setattr(x, "name", v)  ->  x.name = v
+            new = ast.Assign(targets=[ast.Attribute(value=c.args[0], attr=c.args[1].value, ctx=ast.Store())], value=c.args[2], lineno=st.lineno)
+            return self._fix(new, st)
         if isinstance(c, ast.Call) and isinstance(c.func, ast.Attribute):
             recv = c.func.value
             if isinstance(recv, ast.IfExp):
